@@ -88,6 +88,22 @@ def native_only(prog, chk):
                         s = hirq.lit_str(l)
                         if s:
                             removed.add(s)
+        if not removed:
+            # not written as remove_attrs(&[..]) inside the shape's own match arm (per-shape helpers): ask the evaluator
+            # which literal names reach remove_attrs when the element is of this shape
+            try:
+                ev = A.Evaluator(prog, watch=("remove_attrs",), name_case=shape, transparent=("strp", "fstr"))
+                ev.summary("svgdx::position::Position::set_position_attrs")
+                for c_ in ev.calls:
+                    a0 = c_["args"][0] if c_["args"] else None
+                    if a0 is not None and not A.is_form(a0) and a0[0] == "tup":
+                        removed |= {x[1] for x in a0[1] if x is not None and not A.is_form(x) and x[0] == "str"}
+            except Exception:  # noqa: BLE001
+                pass
+            if not removed:
+                chk.undecided("A14.native-only", shape, sp.where(), f"{shape}: the names handed to remove_attrs cannot be read (neither from the shape's match arm nor by evaluation)")
+                continue
+            arm = arm or True
         left = sorted(G - native - removed)
         chk.ob(arm is not None and not left, "A14.native-only", shape, sp.where(), f"{shape}: every non-native geometry attribute is removed ({len(removed)} names)", f"{shape}: geometry attributes {left} are neither native nor removed: they would be left on the output element")
         wrong = sorted(removed & native)
